@@ -489,7 +489,7 @@ class Check(core.PropertyCheck):
                           "inject", "inject_mid_message", "dir_c2s", "dir_s2c", "act_keep", "act_edit", "act_drop",
                           "keep_fragmented", "edit_multibyte", "deliver", "deliver_fragmented", "ping", "pong",
                           "ctl_relayed", "close_with_code", "close_without_code", "eof", "closed")
-    REQUIRED_ACTIONS = ("SendFrame", "HookDone", "Finish")
+    REQUIRED_ACTIONS = ("SendFrame", "HookDone")
     ASSUMPTIONS = (
         "the HTTP upgrade is not replayed: the layer is constructed with a finished 101 flow; peers never send data "
         "frames after their close frame and never send invalid frames or invalid UTF-8",
@@ -507,11 +507,16 @@ class Check(core.PropertyCheck):
     ALL_ACTS = frozenset(range(-1, len(EDITS_QUICK) + 1))
     # A: one message, every template / addon action / direction, one other event (ping, pong, close, EOF, injection)
     #    at every position.   B: two messages (also in one TCP segment), a hook pending while the next one arrives.
-    CONF_A = BASE | {"MaxMsgs": 1, "MaxExtra": 1, "Acts": ALL_ACTS, "Batches": False, "AfterClose": False}
-    CONF_B = BASE | {"MaxMsgs": 2, "MaxExtra": 0, "Acts": frozenset({-1, 0, 4}), "Batches": True, "AfterClose": False}
-    CONF_A2 = BASE | {"MaxMsgs": 1, "MaxExtra": 2, "Acts": ALL_ACTS, "Batches": False, "AfterClose": True}
-    CONF_B2 = BASE | {"MaxMsgs": 2, "MaxExtra": 1, "Acts": frozenset({-1, 0, 2, 4}), "Batches": True, "AfterClose": True}
-    CONF_SIM = BASE | {"MaxMsgs": 4, "MaxExtra": 3, "Acts": ALL_ACTS, "Batches": True, "AfterClose": True}
+    CONF_A = BASE | {"MaxMsgs": 1, "MaxExtra": 1, "Acts": ALL_ACTS, "Batches": False, "AfterClose": False,
+                     "WithFinish": False}
+    CONF_B = BASE | {"MaxMsgs": 2, "MaxExtra": 0, "Acts": frozenset({-1, 0, 4}), "Batches": True, "AfterClose": False,
+                     "WithFinish": False}
+    CONF_A2 = BASE | {"MaxMsgs": 1, "MaxExtra": 2, "Acts": ALL_ACTS, "Batches": False, "AfterClose": True,
+                      "WithFinish": True}
+    CONF_B2 = BASE | {"MaxMsgs": 2, "MaxExtra": 1, "Acts": frozenset({-1, 0, 2, 4}), "Batches": True, "AfterClose": True,
+                      "WithFinish": True}
+    CONF_SIM = BASE | {"MaxMsgs": 4, "MaxExtra": 3, "Acts": ALL_ACTS, "Batches": True, "AfterClose": True,
+                       "WithFinish": True}
 
     def model_constants(self, tier):
         return self.CONF_A
@@ -549,6 +554,11 @@ class Check(core.PropertyCheck):
 
     def _mk(self, consts, beh, rng, source):
         pred = intern_pred(core.predicted_events(beh))
+        ops = self._ops(beh)
+        if not ops or ops[-1] != ["end"]:
+            # the end-of-behaviour record is appended here (quick graphs are dumped without the Finish action)
+            ops.append(["end"])
+            pred.append({"k": "end"})
         deflate = rng.random() < 0.3
         # Under permessage-deflate the plaintext a frame yields depends on the compressor, so frame_buf (and with it
         # what a same-length edit or an injection between fragments does) is not what the model computes; and wsproto
@@ -564,13 +574,15 @@ class Check(core.PropertyCheck):
             pred = zero_frags(pred)
         data = {"msgs": [dict(m) for m in consts["Msgs"]], "edits": [list(e) for e in consts["Edits"]],
                 "injects": [[t, list(c)] for t, c in consts["Injects"]], "fs": consts["FS"], "deflate": deflate,
-                "cut": rng.randrange(1 << 30), "var": rng.randrange(4), "ops": self._ops(beh)}
+                "cut": rng.randrange(1 << 30), "var": rng.randrange(4), "ops": ops}
         return core.Scenario(data, predicted=pred, source=source)
 
     def scenarios(self, ctx, models):
         for m in models[:2]:
             g = m.graph
-            behs = g.edge_cover(ctx.rng, max_len=40, tail=5)
+            behs = g.edge_cover(ctx.rng, max_len=40, tail=12)
+            if ctx.quick and len(behs) > 3000:
+                behs = ctx.rng.sample(behs, 3000)  # quick tier replays a seeded sample of the cover, thorough all of it
             behs += g.random_walks(ctx.rng, 400 if ctx.quick else 8000, 30)
             for b in behs:
                 yield self._mk(m.constants, b, ctx.rng, "model")
